@@ -69,3 +69,19 @@ def run_signals(rep, prop):
                           f"{r['bodies']['x2'][0]} times, the independent job ran {r['bodies']['x3']}, exit status of the experiment {r['rc']}", {"signal": r})
         else:
             rep.cov["traces_validated_against_impl"] += 1
+
+
+def run_rerun(rep, prop):
+    """A failed job submitted again with other values for parameters outside the signature (and other tags): the job
+    process of the second attempt observes the second configuration"""
+    (e2.VERIF / ".work").mkdir(exist_ok=True)
+    r = e2.rerun_case()
+    rep.cov["evaluations"] += 1
+    if r.get("problem"):
+        rep.violation(f"{prop}/rerun/{r['problem'][:40]}", r["problem"], {"rerun": r})
+    elif r["states"] != [["ERROR", "ERROR", "DONE"], ["DONE", "DONE", "DONE"]] or r["x1"] != [2, 1, 1] or (r["tags_of_x1"] or {}).get("attempt") != "two":
+        rep.violation(f"{prop}/rerun/second-attempt-runs-with-the-first-configuration",
+                      f"a job configured to fail, then submitted again configured to succeed (same identifier): final states of the two experiments {r['states']}, "
+                      f"body of the job began / failed / ended {r['x1']} times, tags in its parameter file {r['tags_of_x1']} (expected attempt=two)", {"rerun": r})
+    else:
+        rep.cov["traces_validated_against_impl"] += 1
